@@ -358,6 +358,33 @@ func gctx(t any) reflect.Value {
 	return g.Elem()
 }
 
+// IntField / SetIntField read and write an (unexported) int field of *obj found by name, descending
+// into embedded structs: the anchored state of a property, without compiling against its layout.
+func namedField(obj any, name string) reflect.Value {
+	v := reflect.ValueOf(obj)
+	for v.Kind() == reflect.Ptr || v.Kind() == reflect.Interface {
+		v = v.Elem()
+	}
+	var find func(v reflect.Value, depth int) reflect.Value
+	find = func(v reflect.Value, depth int) reflect.Value {
+		if v.Kind() != reflect.Struct || depth > 4 {
+			return reflect.Value{}
+		}
+		if f := v.FieldByName(name); f.IsValid() {
+			return f
+		}
+		return reflect.Value{}
+	}
+	f := find(v, 0)
+	if !f.IsValid() {
+		panic("vrt: the harness observes the struct field " + name + ", which this tree does not have")
+	}
+	return reflect.NewAt(f.Type(), unsafe.Pointer(f.UnsafeAddr())).Elem()
+}
+
+func IntField(obj any, name string) int       { return int(namedField(obj, name).Int()) }
+func SetIntField(obj any, name string, v int) { namedField(obj, name).SetInt(int64(v)) }
+
 func Tracked(t any) bool { return gctx(t).FieldByName("tracked").Bool() }
 func Dirty(t any) bool   { return gctx(t).FieldByName("bpdirty").Bool() }
 func NumEdges(t any) int { return gctx(t).FieldByName("backEdges").Len() }
